@@ -27,7 +27,8 @@ SPEC = {
     },
     "floors": {
         "quick": {"histories": 25, "queue_partition_checks": 400, "scan_exactness_checks": 300, "syncs_completed": 8, "rewinds": 5, "distinct_nontrivial": 20,
-                  "deep_state_rewind_checks": 5, "heights_compared_across_deep_state_rewinds": 60, "chain_tips_told_at_stability_edge": 8},
+                  "deep_state_rewind_checks": 5, "heights_compared_across_deep_state_rewinds": 60, "chain_tips_told_at_stability_edge": 8,
+                  "chain_tips_told_exactly_at_stability_edge_with_subtree_roots_known": 4},
         "thorough": {"histories": 1000, "queue_partition_checks": 30000, "scan_exactness_checks": 25000, "syncs_completed": 500, "rewinds": 300, "distinct_nontrivial": 200,
                      "deep_state_rewind_checks": 300, "heights_compared_across_deep_state_rewinds": 5000, "chain_tips_told_at_stability_edge": 500},
     },
